@@ -18,6 +18,7 @@
 package c03
 
 import (
+	"crypto/sha1"
 	"encoding/json"
 	"fmt"
 	"go/ast"
@@ -43,6 +44,18 @@ import (
 // ---------------------------------------------------------------- generators
 
 var hookNames = []string{"h1", "h2", "c1", "c2"}
+
+const hookScript = "return FIELDS.speed ~= nil and FIELDS.speed > tonumber(ARGV[1])"
+
+var hookScriptSha = fmt.Sprintf("%x", sha1.Sum([]byte(hookScript)))
+
+// historyPrelude is issued before every history: the script that hooks refer
+// to by digest, and the objects that hooks refer to as their area.
+var historyPrelude = [][]string{
+	{"SCRIPT", "LOAD", hookScript},
+	{"SET", "areas", "z1", "OBJECT", `{"type":"Polygon","coordinates":[[[0,0],[4,0],[4,4],[0,4],[0,0]]]}`},
+	{"SET", "areas", "z2", "BOUNDS", "1", "2", "3", "4"},
+}
 
 func hookCmd(t *rapid.T) []string {
 	name := rapid.SampledFrom(hookNames).Draw(t, "hookname")
@@ -71,7 +84,17 @@ func hookCmd(t *rapid.T) []string {
 	if rapid.IntRange(0, 3).Draw(t, "hex") == 0 {
 		cmd = append(cmd, "EX", strconv.Itoa(rapid.IntRange(100000, 900000).Draw(t, "hexv")))
 	}
-	switch rapid.IntRange(0, 2).Draw(t, "fence") {
+	switch rapid.IntRange(0, 5).Draw(t, "fence") {
+	case 3:
+		// a filter script given as text
+		cmd = append(cmd, "NEARBY", "fencekey", "WHEREEVAL", hookScript, "1", "50", "FENCE", "POINT", "10", "10", "500")
+	case 4:
+		// ... and by the digest of a script loaded before (histories start with SCRIPT LOAD): the log
+		// must not depend on what is loaded in the process that reads it
+		cmd = append(cmd, "WITHIN", "fencekey", "WHEREEVALSHA", hookScriptSha, "1", "50", "FENCE", "BOUNDS", "1", "2", "3", "4")
+	case 5:
+		// an area given by reference
+		cmd = append(cmd, "WITHIN", "fencekey", "FENCE", "GET", "areas", rapid.SampledFrom([]string{"z1", "z2"}).Draw(t, "area"))
 	case 0:
 		cmd = append(cmd, "NEARBY", "fencekey", "FENCE", "POINT", "10", "10", strconv.Itoa(rapid.IntRange(1, 999).Draw(t, "r")))
 	case 1:
@@ -225,6 +248,11 @@ func runHistory(t ev.Failer, c *ev.Collector, h history) (labels map[string]bool
 		defer conns[i].Close()
 	}
 	fail := func(key, what string) { c.Fail(t, key, what, h) }
+	for _, cmd := range historyPrelude {
+		if v := conns[0].MustDo(cmd...); v.IsErr() {
+			t.Fatalf("prelude %v: %s", cmd, v)
+		}
+	}
 	for i := 0; i < h.TTLs; i++ {
 		conns[0].MustDo("SET", "ttlkey", fmt.Sprintf("e%d", i), "EX", "0.05", "POINT", "1", "1")
 	}
